@@ -88,8 +88,8 @@ StepRestart(e) ==
          or == ObsRec(e.rec)
          expect == RestartOf(od).rec
          cause == Cause(steps, pre.pc - 1)
-         g == Cls(or.groupEpoch, or.finishedEpoch)
-         s == Cls(or.shareEpoch, or.finishedEpoch)
+         g == Cls(or.groupEpoch, or.finishedEpoch, cause)
+         s == Cls(or.shareEpoch, or.finishedEpoch, cause)
          A0 == IF ~known THEN {Alarm("Conformance", e, "restart of an unknown crash point", "-", "-", "-", "-")} ELSE {}
          A1 == IF od # pre.disk
                  THEN {Alarm("Conformance", e, "disk: the persistent state read from the copy differs from the specification's", cause, g, s, or.outcome)}
